@@ -891,6 +891,12 @@ func c15Run(t *testing.T, rng *vRand, suite CipherSuiteID, v13, noRRC bool, lenC
 		res.Variant += "-acklost"
 
 		return res
+	case "burst":
+		// zz_verif_c15_burst_test.go: bursts of stale records of older epochs from a new address
+		res.Script = "burst:" + c15DirectedBurst(r, rng, c15BurstCfg.nKU, c15BurstCfg.hsAcks, c15BurstCfg.keepZero, c15BurstCfg.shuffle)
+		res.Variant += "-burst"
+
+		return res
 	}
 	for i := 0; i < 3; i++ {
 		r.peerWrite("", rng)
